@@ -94,7 +94,7 @@ structure ExecRes where
   err : Option ExecErr
 
 mutual
-def walkNode (text : TextSet) (depth : Nat) : Nat → Value → Value → Bytes → Node → ExecRes
+def walkNode (plain : Bool) (text : TextSet) (depth : Nat) : Nat → Value → Value → Bytes → Node → ExecRes
   | 0, _, _, out, _ => ⟨out, some .fuel⟩
   | f+1, dot, root, out, n =>
     match n with
@@ -105,28 +105,33 @@ def walkNode (text : TextSet) (depth : Nat) : Nat → Value → Value → Bytes 
       | .ok v =>
         match v with
         | .str b => ⟨out ++ b, none⟩
-        | _ => ⟨out, some .unsupported⟩   -- after analysis every action ends in a string
+        | .nil => if plain then ⟨out ++ [60, 110, 111, 32, 118, 97, 108, 117, 101, 62], none⟩ else ⟨out, some .unsupported⟩
+        | .noValue => if plain then ⟨out ++ [60, 110, 111, 32, 118, 97, 108, 117, 101, 62], none⟩ else ⟨out, some .unsupported⟩
+        | v =>
+          -- plain text/template (no sanitizers): fmt.Fprint of the value; after analysis every action ends in a string
+          if plain then (match v.sprint with | some b => ⟨out ++ b, none⟩ | none => ⟨out, some .unsupported⟩)
+          else ⟨out, some .unsupported⟩
     | .ifN _ p t e =>
       match evalPipe dot root p with
       | .error er => ⟨out, some er⟩
-      | .ok v => if v.isTrue then walkList text depth f dot root out t else walkList text depth f dot root out e
+      | .ok v => if v.isTrue then walkList plain text depth f dot root out t else walkList plain text depth f dot root out e
     | .withN _ p t e =>
       match evalPipe dot root p with
       | .error er => ⟨out, some er⟩
-      | .ok v => if v.isTrue then walkList text depth f v root out t else walkList text depth f dot root out e
+      | .ok v => if v.isTrue then walkList plain text depth f v root out t else walkList plain text depth f dot root out e
     | .rangeN _ p t e =>
       match evalPipe dot root p with
       | .error er => ⟨out, some er⟩
       | .ok v =>
         match v.indirect with
         | .list vs => match vs with
-          | .nil => walkList text depth f dot root out e
-          | _ => walkRange text depth f vs.toList root out t
+          | .nil => walkList plain text depth f dot root out e
+          | _ => walkRange plain text depth f vs.toList root out t
         | .map kvs => match kvs with
-          | .nil => walkList text depth f dot root out e
-          | _ => walkRange text depth f (kvs.toList.map (·.2)) root out t
-        | .nil => walkList text depth f dot root out e
-        | .noValue => walkList text depth f dot root out e
+          | .nil => walkList plain text depth f dot root out e
+          | _ => walkRange plain text depth f (kvs.toList.map (·.2)) root out t
+        | .nil => walkList plain text depth f dot root out e
+        | .noValue => walkList plain text depth f dot root out e
         | _ => ⟨out, some .unsupported⟩
     | .tmpl _ name p =>
       match text.lookup name with
@@ -136,32 +141,85 @@ def walkNode (text : TextSet) (depth : Nat) : Nat → Value → Value → Bytes 
           | some pp => evalPipe dot root pp
         match dv with
         | .error er => ⟨out, some er⟩
-        | .ok d => if depth ≥ 1000 then ⟨out, some .depth⟩ else walkList text (depth + 1) f d d out tr.root
+        | .ok d => if depth ≥ 1000 then ⟨out, some .depth⟩ else walkList plain text (depth + 1) f d d out tr.root
       | some none => ⟨out, some .nilTree⟩
       | none => ⟨out, some .exec⟩
     | _ => ⟨out, some .unsupported⟩
 
-def walkList (text : TextSet) (depth : Nat) : Nat → Value → Value → Bytes → NodeList → ExecRes
+def walkList (plain : Bool) (text : TextSet) (depth : Nat) : Nat → Value → Value → Bytes → NodeList → ExecRes
   | 0, _, _, out, _ => ⟨out, some .fuel⟩
   | f+1, dot, root, out, l =>
     match l with
     | .nil => ⟨out, none⟩
     | .cons n ns =>
-      let r := walkNode text depth f dot root out n
+      let r := walkNode plain text depth f dot root out n
       match r.err with
       | some _ => r
-      | none => walkList text depth f dot root r.out ns
+      | none => walkList plain text depth f dot root r.out ns
 
-def walkRange (text : TextSet) (depth : Nat) : Nat → List Value → Value → Bytes → NodeList → ExecRes
+def walkRange (plain : Bool) (text : TextSet) (depth : Nat) : Nat → List Value → Value → Bytes → NodeList → ExecRes
   | 0, _, _, out, _ => ⟨out, some .fuel⟩
   | f+1, vs, root, out, body =>
     match vs with
     | [] => ⟨out, none⟩
     | v :: rest =>
-      let r := walkList text depth f v root out body
+      let r := walkList plain text depth f v root out body
       match r.err with
       | some _ => r
-      | none => walkRange text depth f rest root r.out body
+      | none => walkRange plain text depth f rest root r.out body
 end
+
+/-! ### rendering the author's template with inert placeholder values (plain text/template, no sanitizers) -/
+
+mutual
+/-- every string / safe-typed leaf becomes "x" (or "" if it was empty): same control path, inert content -/
+def Value.inert : Value → Value
+  | .str b => .str (if b.isEmpty then [] else [120])
+  | .safe _ b => .str (if b.isEmpty then [] else [120])
+  | .ptr v => .ptr v.inert
+  | .list vs => .list vs.inert
+  | .map kvs => .map kvs.inert
+  | v => v
+def ValueList.inert : ValueList → ValueList
+  | .nil => .nil
+  | .cons v vs => .cons v.inert vs.inert
+def KVList.inert : KVList → KVList
+  | .nil => .nil
+  | .cons k v r => .cons k v.inert r.inert
+end
+
+mutual
+/-- like `inert`, but safe-typed leaves keep their type with benign contents -/
+def Value.inertTyped : Value → Value
+  | .str b => .str (if b.isEmpty then [] else [120])
+  | .safe t _ => .safe t (match t with
+      | .Style => [120, 58, 121, 59] | .StyleSheet => [120, 123, 125]
+      | .TrustedResourceURL => [104,116,116,112,115,58,47,47,120,46,101,120,97,109,112,108,101,47,120]
+      | _ => [120])
+  | .ptr v => .ptr v.inertTyped
+  | .list vs => .list vs.inertTyped
+  | .map kvs => .map kvs.inertTyped
+  | v => v
+def ValueList.inertTyped : ValueList → ValueList
+  | .nil => .nil
+  | .cons v vs => .cons v.inertTyped vs.inertTyped
+def KVList.inertTyped : KVList → KVList
+  | .nil => .nil
+  | .cons k v r => .cons k v.inertTyped r.inertTyped
+end
+
+/-- text/template's own view of a set of definitions (AddParseTree rule: an empty redefinition keeps the old body) -/
+def plainTextSet (defs : List Tree) : TextSet :=
+  defs.foldl (fun ts tr =>
+    match ts.lookup tr.name with
+    | some (some _) => if tr.root.isEmpty then ts else ts.set tr.name (some tr)
+    | _ => ts.set tr.name (some tr)) []
+
+/-- execute template `name` of the definitions with plain text/template semantics -/
+def plainRender (defs : List Tree) (name : String) (data : Value) (fuel : Nat) : ExecRes :=
+  let ts := plainTextSet defs
+  match ts.lookup name with
+  | some (some tr) => walkList true ts 0 fuel data data [] tr.root
+  | _ => ⟨[], some .exec⟩
 
 end SafeHtml.Model.Tmpl
